@@ -31,27 +31,38 @@ BAD = ['K', 'm', 'Hz', 'g']
 LEGACY = {'mJy': 'MJY', 'cgs': 'ergs/cm^2/s'}      # legacy spellings in sed/helpers.py UNIT_MAPPING
 REQUIRED_BRANCHES = (['%s->%s' % (a, b) for a in ('fnu', 'flux', 'lum') for b in ('fnu', 'flux', 'lum')] +
                      ['refused', 'order_nu', 'order_wav', 'apertures_1', 'apertures_5', 'wav_increasing',
-                      'wav_decreasing', 'legacy_units', 'legacy_MJY', 'legacy_ergs', 'err_unit_same', 'err_unit_same_family', 'err_unit_cross_family'] + ['pair_%s_%s' % (a, b) for a in KEYS for b in KEYS])
+                      'wav_decreasing', 'dtype_f4', 'dtype_f8', 'f4_large_luminosity', 'nu_unit_Hz', 'nu_unit_kHz', 'nu_unit_GHz',
+                      'nu_unit_THz', 'wav_unit_micron', 'wav_unit_other', 'legacy_units', 'legacy_MJY', 'legacy_ergs', 'err_unit_same', 'err_unit_same_family', 'err_unit_cross_family'] + ['pair_%s_%s' % (a, b) for a in KEYS for b in KEYS])
 ASSUMPTIONS = ['IEEE rounding is not modelled: values compared within 1e-9 relative',
                'frequencies and distance non-zero, finite positive fluxes',
+               'single-precision files: expected values are computed from the float32 numbers actually stored; the result '
+               'must be finite and equal to the converted value within float64 rounding (luminosities above 3.4e38 erg/s included)',
                'scale factors of the five units are the exact decimal values (mJy = 1e-26, Jy = 1e-23 erg/cm^2/s/Hz, '
                'W/m^2 = 1e3 erg/cm^2/s); astropy computes them in float',
                'the source-side refusal of convert_flux (stored unit of none of the three families) is unreachable through '
                'the public API: the SED.flux / SED.error setters validate the physical type, so such a file cannot be '
                'written with SED.write; only the target-side refusal is exercised (C15_refuse covers both in the model)']
 EXHAUSTIVE = {'quick': True, 'thorough': True}   # all 5 x 5 unit pairs are enumerated in both tiers
-N = {'quick': 290, 'thorough': 8000}
+N = {'quick': 330, 'thorough': 8000}
 DIST_UNITS = ['kpc', 'pc', 'cm', 'lyr']
 
 
 def units():
     from astropy import units as u
     return {'mJy': u.mJy, 'Jy': u.Jy, 'cgs': u.erg / u.cm ** 2 / u.s, 'lum': u.erg / u.s, 'SI': u.W / u.m ** 2,
-            'K': u.K, 'm': u.m, 'Hz': u.Hz, 'g': u.g,
+            'K': u.K, 'm': u.m, 'Hz': u.Hz, 'g': u.g, 'kHz': u.kHz, 'GHz': u.GHz, 'THz': u.THz,
+            'micron': u.micron, 'nm': u.nm, 'AA': u.AA, 'mm': u.mm,
             'kpc': u.kpc, 'pc': u.pc, 'cm': u.cm, 'lyr': u.lyr}
 
 
-def gen_case(rng, stored=None, requested=None, nap=None, order=None, wdir=None, stored_err=None, legacy=None):
+CM = {'kpc': 3.0856775814913674e21, 'pc': 3.0856775814913674e18, 'cm': 1., 'lyr': 9.4607304725808e17}
+NU_UNITS = ['Hz', 'kHz', 'GHz', 'THz']
+WAV_UNITS = ['micron', 'nm', 'AA', 'cm', 'mm', 'm']
+
+
+def gen_case(rng, stored=None, requested=None, nap=None, order=None, wdir=None, stored_err=None, legacy=None,
+             dtype=None, big_lum=None, nu_unit=None, wav_unit=None):
+    free_request = requested is None
     stored = stored or rng.choice(KEYS)
     # the error column carries its own unit in the file; SED validates / writes / reads the two separately
     stored_err = stored_err or (stored if rng.random() < 0.5 else rng.choice(KEYS))
@@ -68,12 +79,28 @@ def gen_case(rng, stored=None, requested=None, nap=None, order=None, wdir=None, 
     def level_of(key):
         return {'mJy': nice(rng, 1e-4, 1e5, 2), 'Jy': nice(rng, 1e-7, 1e2, 2), 'cgs': nice(rng, 1e-16, 1e-6, 2),
                 'SI': nice(rng, 1e-19, 1e-9, 2), 'lum': nice(rng, 1e28, 1e38, 2)}[key]
+    dtype = dtype or rng.choice(['f8', 'f8', 'f4'])
+    if big_lum is None:
+        big_lum = free_request and dtype == 'f4' and stored != 'lum' and rng.random() < 0.4
+    if big_lum:
+        requested = 'lum'
     level = level_of(stored)
+    if dtype == 'f4' and stored == 'lum':
+        level = min(level, 1e36)           # single precision ends at 3.4e38
     flux = [[float('%.4g' % (level * rng.uniform(0.1, 10.))) for _ in wav] for _ in range(nap)]
+    if big_lum:
+        # stored values whose luminosity L = F d^2 lies far above the single-precision range (>= 1e39 erg/s)
+        d_cm = dist * CM[dunit]
+        lum = nice(rng, 1e39, 1e42, 2)
+        fam = FAMILY[stored]
+        flux = [[float('%.4g' % (lum * rng.uniform(0.5, 2.) / d_cm ** 2 / float(SCALE[stored]) /
+                                 ((2.99792458e14 / w) if fam == 'fnu' else 1.))) for w in wav] for _ in range(nap)]
     if stored_err == stored:
         err = [[float('%.3g' % (f * rng.uniform(0.01, 0.5))) for f in row] for row in flux]
     else:
         elevel = level_of(stored_err) * 0.1
+        if dtype == 'f4' and stored_err == 'lum':
+            elevel = min(elevel, 1e35)
         err = [[float('%.3g' % (elevel * rng.uniform(0.1, 10.))) for _ in wav] for _ in range(nap)]
     aps = sorted({float('%.3g' % nice(rng, 10., 1e5, 3)) for _ in range(nap)})
     while len(aps) < nap:
@@ -81,7 +108,10 @@ def gen_case(rng, stored=None, requested=None, nap=None, order=None, wdir=None, 
     return dict(stored=stored, stored_err=stored_err, requested=requested, third=third, wav=wav, distance=dist, distance_unit=dunit,
                 apertures=aps if nap > 1 else None, flux=flux, err=err,
                 order=order or rng.choice(['nu', 'wav']),
-                legacy=bool(rng.random() < 0.25 if legacy is None else legacy))
+                legacy=bool(rng.random() < 0.25 if legacy is None else legacy),
+                dtype=dtype, big_lum=bool(big_lum),
+                nu_unit=nu_unit or rng.choice(['Hz', 'Hz', 'Hz', 'kHz', 'GHz', 'THz']),
+                wav_unit=wav_unit or rng.choice(['micron', 'micron', 'micron'] + WAV_UNITS[1:]))
 
 
 def gen_cases(seed, tier):
@@ -91,7 +121,7 @@ def gen_cases(seed, tier):
         for b in KEYS:
             rng = case_rng(seed, PID, i)
             yield gen_case(rng, stored=a, requested=b, nap=[1, 5, 2][i % 3], order=['nu', 'wav'][i % 2],
-                           wdir=['inc', 'dec'][(i // 2) % 2], stored_err=a)
+                           wdir=['inc', 'dec'][(i // 2) % 2], stored_err=a, dtype='f8', nu_unit='Hz', wav_unit='micron')
             i += 1
     # error column stored in another unit than the flux column: all 20 ordered pairs, requested unit cycling
     for a in KEYS:
@@ -110,6 +140,23 @@ def gen_cases(seed, tier):
         rng = case_rng(seed, PID, i)
         yield gen_case(rng, stored=a, requested=b, stored_err=a)
         i += 1
+    # single-precision flux / error columns (the format of the original model packages): luminosities far above the
+    # float32 range, and ordinary values
+    for a in ('mJy', 'Jy', 'cgs', 'SI'):
+        rng = case_rng(seed, PID, i)
+        yield gen_case(rng, stored=a, stored_err=a, requested='lum', dtype='f4', big_lum=True)
+        i += 1
+    for k, a in enumerate(KEYS):
+        rng = case_rng(seed, PID, i)
+        yield gen_case(rng, stored=a, stored_err=a, requested=KEYS[(k + 2) % 5], dtype='f4', big_lum=False)
+        i += 1
+    # frequency grid held in kHz / GHz / THz and wavelengths in other length units, conversions across the F_nu boundary
+    for k, nuu in enumerate(['kHz', 'GHz', 'THz']):
+        for a, b in (('mJy', 'cgs'), ('lum', 'Jy'), ('SI', 'mJy'), ('Jy', 'lum')):
+            rng = case_rng(seed, PID, i)
+            yield gen_case(rng, stored=a, stored_err=a, requested=b, nu_unit=nuu, wav_unit=WAV_UNITS[(i + k) % 6],
+                           legacy=bool(i % 2))
+            i += 1
     while i < N[tier]:
         rng = case_rng(seed, PID, i)
         yield gen_case(rng)
@@ -125,14 +172,31 @@ def write_sed(case, path, unit):
     eu = U[case.get('stored_err', case['stored'])]
     if eu != unit:
         s.error = np.array(case['err'], dtype=float).reshape(s.flux.shape) * eu
+    if case.get('dtype') == 'f4':
+        # single-precision columns, as in the original model packages
+        s.flux = np.array(case['flux'], dtype=np.float32).reshape(s.flux.shape) * unit
+        s.error = np.array(case['err'], dtype=np.float32).reshape(s.flux.shape) * eu
+    # the spectral axes may be held in other units; SED.write records them
+    if case.get('nu_unit', 'Hz') != 'Hz':
+        s.nu = s.nu.to(U[case['nu_unit']])
+    if case.get('wav_unit', 'micron') != 'micron':
+        s.wav = s.wav.to(U[case['wav_unit']])
     s.distance = case['distance'] * U[case['distance_unit']]
     s.write(path, overwrite=True)
+    if case.get('dtype') == 'f4':
+        from astropy.io import fits
+        with fits.open(path) as h:
+            forms = (h[3].columns[0].format, h[3].columns[1].format)
+        if not all(str(fm).endswith('E') for fm in forms):
+            raise RuntimeError('harness: float32 SED was not stored in single precision (%r)' % (forms,))
     if case.get('legacy'):
         # the same file with the legacy unit spellings that parse_unit_safe maps (UNIT_MAPPING)
         from astropy.io import fits
         with fits.open(path, mode='update') as h:
-            h[1].header['TUNIT1'] = 'MICRONS'
-            h[1].header['TUNIT2'] = 'HZ'
+            if case.get('wav_unit', 'micron') == 'micron':
+                h[1].header['TUNIT1'] = 'MICRONS'
+            if case.get('nu_unit', 'Hz') == 'Hz':
+                h[1].header['TUNIT2'] = 'HZ'
             for col, key in ((1, case['stored']), (2, case.get('stored_err', case['stored']))):
                 if key in LEGACY:
                     h[3].header['TUNIT%d' % col] = LEGACY[key]
@@ -144,6 +208,9 @@ def read_values(path, unit, order):
     from sedfitter.sed import SED
     s = SED.read(path, unit_flux=unit, order=order)
     return s, np.asarray(s.flux.to(unit).value, dtype=float), np.asarray(s.error.to(unit).value, dtype=float)
+
+
+TOL = {'f8': 1e-9, 'f4': 1e-6}     # float32 files: the code may carry single precision (eps = 2**-23) through
 
 
 def allclose(a, b, tol=1e-9):
@@ -165,14 +232,25 @@ def model_convert(drv, case, a, b, d_cm, nus, rows):
     return [[float(x) for x in t.rats()] for _ in range(n)]
 
 
+def stored_case(case):
+    """the case with the numbers the file actually holds: single-precision columns store float32(value)"""
+    if case.get('dtype') != 'f4':
+        return case
+    r32 = lambda rows: [[float(np.float32(v)) for v in row] for row in rows]
+    return dict(case, flux=r32(case['flux']), err=r32(case['err']))
+
+
 def run_case(case):
     from astropy import units as u
     U = units()
     d = tempfile.mkdtemp(prefix='c15_')
+    case = stored_case(case)
     a, b, c = case['stored'], case['requested'], case['third']
     ae = case.get('stored_err', a)
     nap = len(case['flux'])
-    branches = {'err_unit_same' if ae == a else ('err_unit_same_family' if FAMILY[ae] == FAMILY[a] else 'err_unit_cross_family'),
+    branches = {'dtype_' + case.get('dtype', 'f8'), 'nu_unit_' + case.get('nu_unit', 'Hz'),
+                'wav_unit_micron' if case.get('wav_unit', 'micron') == 'micron' else 'wav_unit_other',
+                'err_unit_same' if ae == a else ('err_unit_same_family' if FAMILY[ae] == FAMILY[a] else 'err_unit_cross_family'),
                 'order_' + case['order'], 'apertures_%d' % nap if nap in (1, 5) else 'apertures_mid',
                 'wav_increasing' if len(case['wav']) < 2 or case['wav'][-1] > case['wav'][0] else 'wav_decreasing'}
     try:
@@ -222,13 +300,16 @@ def run_case(case):
             return CaseResult(False, violates=True, branches=sorted(branches),
                               detail='SED.read(unit_flux=%s) returned flux in %s and error in %s (stored %s / %s)'
                               % (U[b], s.flux.unit, s.error.unit, a, ae))
+        if case.get('big_lum'):
+            branches.add('f4_large_luminosity' if case.get('dtype') == 'f4' else 'large_luminosity')
         if case.get('legacy'):
             branches.add('legacy_units')
             for key in (a, ae):
                 if key in LEGACY:
                     branches.add('legacy_' + LEGACY[key].split('/')[0])
-        if not (allclose(got_f, want_f) and allclose(got_e, want_e)):
-            what, got, want, src = ('flux', got_f, want_f, flux) if not allclose(got_f, want_f) else ('error', got_e, want_e, err)
+        tol = TOL[case.get('dtype', 'f8')]
+        if not (allclose(got_f, want_f, tol) and allclose(got_e, want_e, tol)):
+            what, got, want, src = ('flux', got_f, want_f, flux) if not allclose(got_f, want_f, tol) else ('error', got_e, want_e, err)
             k = int(np.argmax(np.abs(got - np.array(want)) / np.abs(np.array(want)))) if got.shape == np.shape(want) else 0
             return CaseResult(False, violates=True, branches=sorted(branches),
                               detail=('stored %s (error column %s), requested %s, d = %r cm, order %s: SED.read %s %r, expected from F = nu*F_nu, '
@@ -270,17 +351,18 @@ def direct_checks(case, d, path, got_f, got_e, nus, d_cm):
         _, f_cgs, _ = read_values(path, U['cgs'], order)
         _, f_lum, _ = read_values(path, U['lum'], order)
     nap = len(case['flux'])
+    tol = TOL[case.get('dtype', 'f8')]
     stored = np.array(case['flux'], dtype=float)
-    if not allclose(np.sort(orig_f, axis=1), np.sort(stored, axis=1)):
+    if not allclose(np.sort(orig_f, axis=1), np.sort(stored, axis=1), tol):
         return 'reading %s back in the stored unit changed the values: %r vs %r' % (a, orig_f.ravel()[:3], stored.ravel()[:3])
-    if not (allclose(back_f, orig_f) and allclose(back_e, orig_e)):
+    if not (allclose(back_f, orig_f, tol) and allclose(back_e, orig_e, tol)):
         return 'round trip %s -> %s -> %s is not the identity: %r vs %r' % (a, b, a, back_f.ravel()[:3], orig_f.ravel()[:3])
-    if not (allclose(bc_f, ac_f) and allclose(bc_e, ac_e)):
+    if not (allclose(bc_f, ac_f, tol) and allclose(bc_e, ac_e, tol)):
         return 'composition %s -> %s -> %s differs from %s -> %s: %r vs %r' % (a, b, c, a, c, bc_f.ravel()[:3], ac_f.ravel()[:3])
     nu = np.array(nus, dtype=float)[None, :]
-    if not allclose(f_cgs, nu * f_jy * 1e-23):
+    if not allclose(f_cgs, nu * f_jy * 1e-23, tol):
         return 'F(erg/cm^2/s) = %r is not nu*F_nu = %r' % (f_cgs.ravel()[:3], (nu * f_jy * 1e-23).ravel()[:3])
-    if not allclose(f_lum, f_cgs * d_cm ** 2):
+    if not allclose(f_lum, f_cgs * d_cm ** 2, tol):
         return 'L = %r is not F*d^2 = %r' % (f_lum.ravel()[:3], (f_cgs * d_cm ** 2).ravel()[:3])
     return None
 
@@ -299,6 +381,7 @@ def search(seed, tier, disagreeing_cases):
     for case in list(disagreeing_cases) + sweep:
         if 'stored' not in case:
             continue
+        case = stored_case(case)
         tried += 1
         d = tempfile.mkdtemp(prefix='c15s_')
         try:
